@@ -8,14 +8,25 @@ use std::time::Duration;
 // the rest of std::thread, unchanged (threads started through `Builder` are real OS threads)
 pub use std::thread::{available_parallelism, current, panicking, park, park_timeout, AccessError, Builder, LocalKey, Result, Thread, ThreadId};
 
+// Crash semantics: under std a panic ends ONE thread; `join` hands its payload to the joiner, a
+// scope re-raises "a scoped thread panicked" only for threads nobody joined, and every other
+// thread keeps running. shuttle instead ends the whole execution at the first panicking task, so
+// simulated threads run their closure under `catch_unwind` and carry the payload to `join`: a
+// worker that dies at an arbitrary point is one more fault the simulation can inject.
 pub enum JoinHandle<T> {
-    Sim(shuttle::thread::JoinHandle<T>),
+    Sim(shuttle::thread::JoinHandle<std::thread::Result<T>>),
     Std(std::thread::JoinHandle<T>),
+}
+fn flatten<T>(r: std::thread::Result<std::thread::Result<T>>) -> std::thread::Result<T> {
+    match r {
+        Ok(Ok(v)) => Ok(v),
+        Ok(Err(p)) | Err(p) => Err(p),
+    }
 }
 impl<T> JoinHandle<T> {
     pub fn join(self) -> std::thread::Result<T> {
         match self {
-            JoinHandle::Sim(h) => h.join(),
+            JoinHandle::Sim(h) => flatten(h.join()),
             JoinHandle::Std(h) => h.join(),
         }
     }
@@ -28,24 +39,38 @@ where
 {
     if crate::in_sim() {
         crate::sim::event("spawn", 0);
-        JoinHandle::Sim(shuttle::thread::spawn(f))
+        JoinHandle::Sim(shuttle::thread::spawn(move || {
+            let r = std::panic::catch_unwind(std::panic::AssertUnwindSafe(f));
+            if r.is_err() {
+                crate::sim::count("thread_panics", 1);
+            }
+            r
+        }))
     } else {
         JoinHandle::Std(std::thread::spawn(f))
     }
 }
 
 pub enum Scope<'scope, 'env: 'scope> {
-    Sim(&'scope shuttle::thread::Scope<'scope, 'env>),
+    /// the counter holds the panics of scoped threads that nobody has joined (yet)
+    Sim(&'scope shuttle::thread::Scope<'scope, 'env>, std::sync::Arc<std::sync::atomic::AtomicUsize>),
     Std(&'scope std::thread::Scope<'scope, 'env>),
 }
 pub enum ScopedJoinHandle<'scope, T> {
-    Sim(shuttle::thread::ScopedJoinHandle<'scope, T>),
+    Sim(shuttle::thread::ScopedJoinHandle<'scope, std::thread::Result<T>>, std::sync::Arc<std::sync::atomic::AtomicUsize>),
     Std(std::thread::ScopedJoinHandle<'scope, T>),
 }
 impl<'scope, T> ScopedJoinHandle<'scope, T> {
     pub fn join(self) -> std::thread::Result<T> {
         match self {
-            ScopedJoinHandle::Sim(h) => h.join(),
+            ScopedJoinHandle::Sim(h, unhandled) => {
+                let r = flatten(h.join());
+                if r.is_err() {
+                    // the joiner has the payload now: no longer the scope's business
+                    unhandled.fetch_sub(1, std::sync::atomic::Ordering::SeqCst);
+                }
+                r
+            }
             ScopedJoinHandle::Std(h) => h.join(),
         }
     }
@@ -57,7 +82,20 @@ impl<'scope, 'env> Scope<'scope, 'env> {
         T: Send + 'scope,
     {
         match self {
-            Scope::Sim(s) => ScopedJoinHandle::Sim(s.spawn(f)),
+            Scope::Sim(s, unhandled) => {
+                let u = unhandled.clone();
+                ScopedJoinHandle::Sim(
+                    s.spawn(move || {
+                        let r = std::panic::catch_unwind(std::panic::AssertUnwindSafe(f));
+                        if r.is_err() {
+                            crate::sim::count("thread_panics", 1);
+                            u.fetch_add(1, std::sync::atomic::Ordering::SeqCst);
+                        }
+                        r
+                    }),
+                    unhandled.clone(),
+                )
+            }
             Scope::Std(s) => ScopedJoinHandle::Std(s.spawn(f)),
         }
     }
@@ -69,7 +107,19 @@ where
 {
     // the wrapper has to live for 'scope: a 16-byte leak per call keeps the borrow checker honest
     if crate::in_sim() {
-        shuttle::thread::scope(|s| f(Box::leak(Box::new(Scope::Sim(s)))))
+        let unhandled = std::sync::Arc::new(std::sync::atomic::AtomicUsize::new(0));
+        let u = unhandled.clone();
+        // like std: the closure's own panic is re-raised only after every scoped thread has finished
+        let r = shuttle::thread::scope(|s| std::panic::catch_unwind(std::panic::AssertUnwindSafe(|| f(Box::leak(Box::new(Scope::Sim(s, u)))))));
+        match r {
+            Err(p) => std::panic::resume_unwind(p),
+            Ok(v) => {
+                if unhandled.load(std::sync::atomic::Ordering::SeqCst) > 0 {
+                    panic!("a scoped thread panicked");
+                }
+                v
+            }
+        }
     } else {
         std::thread::scope(|s| f(Box::leak(Box::new(Scope::Std(s)))))
     }
@@ -81,6 +131,10 @@ pub fn sleep(d: Duration) {
     let ns = d.as_nanos().min(u64::MAX as u128) as u64;
     crate::sim::clock_advance(ns);
     if crate::in_sim() {
+        if crate::sim::process_exited() && !std::thread::panicking() {
+            // the process is gone: this thread dies here (no panic hook, no message)
+            std::panic::resume_unwind(Box::new(crate::sim::ProcessExit));
+        }
         crate::sim::event("sleep", ns);
         crate::sim::count("sleeps", 1);
         crate::sim::count("sleeps_since_last_send", 1);
